@@ -298,15 +298,15 @@ func (w *cWorld) exchange(kind int, xid uint32, haveXid bool, t0 uint64, pre tim
 		w.ended[xid] = t0 + uint64(dt)
 		sched(dt, func() { w.seg.Inject(rsocks.KindIP, pkt) })
 		if r2 := w.r2; r2 != nil && kind != 1 && r2.Intn(3) == 0 {
-			// after the accepted ACK: the same reply again, a NAK for the same transaction, an OFFER - all too late to matter
+			// after the accepted ACK: the same reply again, an OFFER - too late to matter
 			// (not after an OFFER: the selecting REQUEST continues that transaction)
+			// (no NAK here: the client takes a NAK for its hardware address whatever the transaction id, so one that arrives
+			// when a link event has already started the next exchange would be that exchange's answer)
 			var late []byte
-			switch r2.Intn(3) {
+			switch r2.Intn(2) {
 			case 0:
 				late = pkt
 			case 1:
-				late = w.reply(6, xid, li)
-			case 2:
 				late = w.reply(2, xid, li)
 			}
 			sched(dt+ms(1+r2.Intn(150)), func() { w.seg.Inject(rsocks.KindIP, late) })
